@@ -18,7 +18,7 @@ theorem src_consumeRecordSerial_expected : src_consumeRecordSerial = "{ ptFinish
 
 theorem src_replayOnePartition_expected : src_replayOnePartition = "{ for i, fileName := range l.logReplay[idx].fileNames { select { case <-ctx.Done(): l.log.Info(\"cancel replay wal\", zap.String(\"filename\", fileName)) return nil default: } var lastFile bool if idx == len(l.logReplay)-1 && i == len(l.logReplay[idx].fileNames)-1 { lastFile = true } err := l.replayWalFile(ctx, fileName, lastFile, callBack) if err != nil { return err } } return nil }" := by rfl
 
-theorem src_writeSnapshot_expected : src_writeSnapshot = "{ if s.SnapShotter != nil { atomic.StoreUint32(&s.SnapShotter.RaftFlag, 0) } s.snapshotLock.Lock() if s.activeTbl == nil { s.snapshotLock.Unlock() return } walFiles, err := s.wal.Switch() if err != nil { s.snapshotLock.Unlock() panic(\"wal switch failed\") } s.snapshotTbl = s.activeTbl curSize := s.snapshotTbl.GetMemSize() s.activeTbl = s.memTablePool.Get(s.engineType) s.activeTbl.SetIdx(s.skIdx) if s.SnapShotter != nil { s.SnapShotter.RaftFlushC <- true atomic.StoreUint32(&s.SnapShotter.RaftFlag, 1) } s.snapshotLock.Unlock() start := time.Now() s.indexBuilder.Flush() s.commitSnapshot(s.snapshotTbl) nodeMutableLimit.freeResource(curSize) err = RemoveWalFiles(walFiles) if err != nil { panic(\"wal remove files failed: \" + err.Error()) } failpoint.Inject(\"snapshot-table-reset-delay\", func() { time.Sleep(2 * time.Second) }) s.snapshotLock.Lock() s.snapshotTbl.UnRef() s.snapshotTbl = nil s.snapshotLock.Unlock() atomic.AddInt64(&statistics.PerfStat.FlushSnapshotDurationNs, time.Since(start).Nanoseconds()) atomic.AddInt64(&statistics.PerfStat.FlushSnapshotCount, 1) }" := by rfl
+theorem src_writeSnapshot_expected : src_writeSnapshot = "{ snapShotter := s.SnapShotter if snapShotter != nil { atomic.StoreUint32(&snapShotter.RaftFlag, 0) } s.snapshotLock.Lock() if s.activeTbl == nil { s.snapshotLock.Unlock() return } walFiles, err := s.wal.Switch() if err != nil { s.snapshotLock.Unlock() panic(\"wal switch failed\") } s.snapshotTbl = s.activeTbl curSize := s.snapshotTbl.GetMemSize() s.activeTbl = s.memTablePool.Get(s.engineType) s.activeTbl.SetIdx(s.skIdx) s.snapshotLock.Unlock() start := time.Now() s.indexBuilder.Flush() s.commitSnapshot(s.snapshotTbl) nodeMutableLimit.freeResource(curSize) err = RemoveWalFiles(walFiles) if err != nil { panic(\"wal remove files failed: \" + err.Error()) } if snapShotter != nil { snapShotter.RaftFlushC <- true atomic.StoreUint32(&snapShotter.RaftFlag, 1) } failpoint.Inject(\"snapshot-table-reset-delay\", func() { time.Sleep(2 * time.Second) }) s.snapshotLock.Lock() s.snapshotTbl.UnRef() s.snapshotTbl = nil s.snapshotLock.Unlock() atomic.AddInt64(&statistics.PerfStat.FlushSnapshotDurationNs, time.Since(start).Nanoseconds()) atomic.AddInt64(&statistics.PerfStat.FlushSnapshotCount, 1) }" := by rfl
 
 theorem generation_ok : generationFailed = false := by rfl
 
